@@ -148,7 +148,8 @@ class NoReimportsInit(Contract):
 SKIP = {"__init__", "_apply_plugins_on_object", "process_schema"}
 CONTRACTS = [ApplyPlugins(), NoReimportsInit()]
 for _name, _fn in inspect.getmembers(PM.PluginManager, inspect.isfunction):
-    if _name not in SKIP:
+    # a hook of the manager is a public method that the plugin base class has too (private helpers are not hooks)
+    if _name not in SKIP and not _name.startswith("_") and hasattr(PB.Plugin, _name):
         CONTRACTS.append(_manager_hook_contract(_name, _fn))
 for _name, _fn in inspect.getmembers(PB.Plugin, inspect.isfunction):
     if _name not in ("__init__",):
